@@ -41,7 +41,7 @@ STORE_MODEL_ALL = [r'agree\.wf', r'res', r'nodes', r'edges', r'node', r'idx', r'
                    r'ien', r'iens', r'oen', r'oens', r'nb', r'sn', r'pn', r'son', r'smap', r'pmap', r'bfs', r'ehw',
                    r'travs', r'travp', r'cnt', r'deg', r'indeg', r'outdeg', r'wdeg', r'windeg', r'woutdeg', r'degall',
                    r'indegall', r'outdegall', r'wdegall', r'windegall', r'woutdegall', r'dens:q', r'dc:q', r'mat',
-                   r'sub\d+', r'rev', r'setw', r'single', r'snap\..*', r'poison']
+                   r'sub\d+', r'subdup\d+', r'rev', r'setw', r'single', r'snap\..*', r'poison']
 
 STORE_RULE = ('histories of 1..size calls over add_node/add_nodes/add_edge/add_edge_tuple/add_edges/add_edge_tuples/'
               'new_from_nodes_and_edges drawn from one splitmix64 stream per case (VERIF_SEED), uniformly over the 96 '
@@ -94,8 +94,8 @@ PROPS = {
     'C15': dict(
         extra_modules=['GraphrsModel.Props.Core'],
         gens=[('store', 'general', 3000, 40000, 12), ('store', 'big', 150, 3000, 0), ('store', 'huge', 20, 300, 0)],
-        spec_fields=[r'sub\d+', r'rev', r'setw', r'single'],
-        model_fields=[r'sub\d+', r'rev', r'setw', r'single', r'edges', r'nodes', r'agree\.wfderived'],
+        spec_fields=[r'sub\d+', r'subdup\d+', r'rev', r'setw', r'single'],
+        model_fields=[r'sub\d+', r'subdup\d+', r'rev', r'setw', r'single', r'edges', r'nodes', r'agree\.wfderived'],
         impl_checks=[('srcsame', '1')],
         nontrivial=store_nontrivial, hist=store_hist, rule=STORE_RULE + '; derived graphs: get_subgraph for every subset '
         'of a 4-name universe (one absent), reverse, set_all_edge_weights(w), to_single_edges; each compared on nodes, '
